@@ -204,7 +204,10 @@ def run_mutant(m, keep_going=True) -> dict:
                 shutil.copy(REPO / f, d / f)
         (d / "src" / "pest" / rel).write_text(text)
         env = {**os.environ, "PYTHONPATH": str(d / "src")}
-        t = subprocess.run(["/venv/bin/python", "-m", "pytest", "-q", "-p", "no:cacheprovider", "--timeout=120", "--continue-on-collection-errors"], cwd=d, env=env, capture_output=True, text=True, timeout=900, check=False)
+        try:
+            t = subprocess.run(["/venv/bin/python", "-m", "pytest", "-q", "-p", "no:cacheprovider", "--timeout=30", "--maxfail=3", "--continue-on-collection-errors"], cwd=d, env=env, capture_output=True, text=True, timeout=400, check=False)
+        except subprocess.TimeoutExpired:
+            return {**m, "status": "tests", "tests": "suite hangs"}
         tail = (t.stdout.strip().splitlines() or [""])[-1]
         # baseline: "678 passed, 1 error" (the one expected collection error)
         if " failed" in tail or "678 passed" not in tail or "1 error" not in tail:
@@ -248,8 +251,14 @@ def main() -> int:
     pick = allm[: a.n]
     print(f"{len(allm)} candidate mutants, running {len(pick)}", flush=True)
     results = []
+    def safe(m):
+        try:
+            return run_mutant(m)
+        except Exception as e:  # noqa: BLE001
+            return {**m, "status": "skipped", "why": f"{type(e).__name__}: {e}"[:200]}
+
     with ThreadPoolExecutor(a.jobs) as ex:
-        for r in ex.map(run_mutant, pick):
+        for r in ex.map(safe, pick):
             results.append(r)
             print(f"{r['status']:10s} {r['file']}:{r['line']} {r['func']} {r['desc']} {r.get('by', '')} {r.get('checks', r.get('tests', r.get('why', '')))}", flush=True)
             Path(a.out).write_text(json.dumps(results, indent=1))
